@@ -247,6 +247,9 @@ class Parser:
                 self.next()
             inner = self.ty()
             self.expect(">")
+            if self.at("+") and self.peek(1)[0] == "life":      # `+ '_`: a borrow bound, no meaning in the value model
+                self.next()
+                self.next()
             return ("ty", "slice", [inner])
         if self.at("impl") or self.at("dyn"):
             raise Unsupported("impl/dyn type")
@@ -3562,9 +3565,9 @@ MODULES = {
         "types": ["BlockHeader", "BasePartition", "Partition"],
         "consts": [],
         "functions": [("BasePartition", None, f) for f in ("new", "num_blocks", "index", "size", "block_size", "smaller_block",
-                                                            "pick_element", "slice", "add_block", "split_block")]
+                                                            "pick_element", "slice", "add_block", "split_block", "block_elements")]
                      + [("Partition", None, f) for f in ("new", "num_blocks", "index", "size", "block_size", "smaller_block",
-                                                         "pick_element", "block_id")],
+                                                         "pick_element", "block_id", "block_elements")],
     },
     "PartitionGen": {
         "files": ["character_sets.rs", "smt_strings.rs", "errors.rs"],
